@@ -2,11 +2,11 @@ from vpkg.core import Unit
 from vpkg import csrc
 _t = csrc.Tree()
 _g = [f.name for f in _t.by_file[csrc.REPO + "/src/highlevel/bidib_highlevel_getter.c"]]
-def _u(name, define, keep):
+def _u(name, define, keep, **kw):
     return Unit(name="C17." + name, src="units/C17/getters.c", defines=[define], functions=keep, props=["C17"], no_dfcc=True,
                 remove_bodies=[f for f in _g if f not in keep], extra_flags=["--nondet-static", "--unwind", "10"], covers=2, min_obligations=6, timeout=300,
                 stubbed_contracts=["bidib_state_get_*_ref (lookup: NULL or an arbitrary element)", "strdup", "memcpy"],
-                note="known / unknown / NULL id x arbitrary tracked state; result handed to its free function")
+                note="known / unknown / NULL id x arbitrary tracked state; result handed to its free function", **kw)
 UNITS = [
     _u("peripheral_state", "VP_H_PERIPHERAL", ["bidib_get_peripheral_state", "bidib_free_peripheral_state_query"]),
     _u("reverser_state", "VP_H_REVERSER", ["bidib_get_reverser_state", "bidib_free_reverser_state_query"]),
@@ -15,6 +15,8 @@ UNITS = [
     _u("segment_state", "VP_H_SEGMENT", ["bidib_get_segment_state", "bidib_free_segment_state_query"]),
     _u("point_state", "VP_H_POINT", ["bidib_get_point_state", "bidib_free_unified_accessory_state_query"]),
     _u("signal_state", "VP_H_SIGNAL", ["bidib_get_signal_state", "bidib_free_unified_accessory_state_query"]),
+    _u("train_state", "VP_H_TRAIN_STATE", ["bidib_get_train_state", "bidib_free_train_state_query"], kind="bounded", bound="train with at most 2 functions; loops unwound completely"),
+    _u("train_scalars", "VP_H_TRAIN_SCALARS", ["bidib_get_train_on_track", "bidib_get_train_speed_step", "bidib_get_train_speed_kmh", "bidib_get_train_peripheral_state"], kind="bounded", bound="train with at most 2 functions (only bidib_get_train_peripheral_state has a loop)"),
 ] + [
     Unit(name="C17.snapshot_" + n, src="units/C17/snapshot.c", defines=[d], functions=keep, props=["C17"] + (["C08"] if n == "position" else []), no_dfcc=True,
          kind="bounded", bound="2 tracked entities (2 segments with <= 2 addresses each); loops unwound completely for that size",
